@@ -2,6 +2,7 @@ import Ach.Props.Layouts
 import Ach.Proofs.Layout
 import Ach.Proofs.Lines
 import Ach.Proofs.Compile
+import Ach.Generated.Topics
 /-!
 # C01 — Write then Read returns the same file, for every physical line layout
 
@@ -82,5 +83,11 @@ theorem layout_trimmed (recs : List Str) (seps : List Str)
     simp [finish]
   · intro r hr
     exact rightPad_trimRight_spaces rightPadUnit r (hlen r hr) (Or.inl pad_unit_is_rune)
+
+/-- F: the Reader / Writer functions whose loops `Ach.Model.Lines` and `Ach.Model.Writer` mirror by hand, and the
+converters `Ach.Model.Field` mirrors, have the bodies the models were written against -/
+theorem reader_writer_functions_unchanged : hashes_readwrite = [("NewReaderWithContentType", 4219352347121408690), ("NewReader", 3010030418815538912), ("NewWriterWithOpts", 13109305797645892749), ("NewWriter", 17891989422190391091), ("Reader.Read", 14029065647283193467), ("Reader.readLine", 3416248389251196672), ("Reader.parseLine", 9354773263074861296), ("Writer.Write", 647901554185630992), ("Writer.writeBatch", 11647795274641545808), ("Writer.writeIATBatch", 16352563860775370297), ("Writer.writeLine", 8220964415537587164), ("Writer.Flush", 1266472369869030050)] := by decide +kernel
+
+theorem converter_functions_unchanged : hashes_converters = [("converters.alphaField", 4740796053050000714), ("converters.numericField", 9438519147184405342), ("converters.stringField", 2345220697369990213), ("converters.parseNumField", 1749344308253117534), ("converters.parseStringField", 9183802689701039486), ("converters.parseStringFieldWithOpts", 14307142360421685818), ("converters.leastSignificantDigits", 6497238369820402250), ("validator.validateSimpleDate", 3612652229803380485), ("validator.validateSimpleTime", 5875137419291385217), ("validator.validateSettlementDate", 10899315051963069866), ("validator.isAlphanumeric", 16446727476239382950), ("trimRoutingNumberLeadingZero", 9750321273517260225), ("rightPadShortLine", 8981738434401343921), ("blankLine", 3508514771600622843)] := by decide +kernel
 
 end Ach.Props.C01
